@@ -31,7 +31,7 @@ IsJwe(e) == e \in JweEntries
 JT == {"absent", "str_ok", "str_bad", "int_pos", "int_zero", "int_neg", "int_big", "float", "true", "false", "null",
        "list_empty", "list_str", "list_mixed", "list_nested", "obj_empty", "obj_ok", "obj_bad", "deep"}
 SegClasses == {"bad_alphabet", "len1mod4", "empty", "nonascii", "padded", "whitespace", "other_valid"}
-EpkClasses == {"absent", "str_unknown", "str_otherkty", "str_badb64", "str_shortb64", "int", "list", "null", "obj"}
+EpkClasses == {"absent", "str_unknown", "str_otherkty", "str_badb64", "str_shortb64", "int", "list", "null", "obj", "list_nested", "list_obj", "bool", "float", "deep"}
 
 CommonMembers == {"alg", "kid", "typ", "cty", "jku", "jwk", "x5c", "crit", "unknown"}
 JwsMembers == CommonMembers \cup {"b64"}
@@ -45,7 +45,7 @@ Segments(e) == IF IsJwe(e) THEN {"header", "ek", "iv", "ciphertext", "tag"} \cup
 SlotsOf(e) ==
   {Slot("hdr_type", "protected", "protected")}
   \cup {Slot("member", m, p) : m \in (IF IsJwe(e) THEN JweMembers ELSE JwsMembers), p \in Positions(e)}
-  \cup (IF IsJwe(e) THEN {Slot("epk", s, p) : s \in {"kty", "crv", "x", "y", "d"}, p \in Positions(e)} ELSE {})
+  \cup (IF IsJwe(e) THEN {Slot("epk", s, p) : s \in {"kty", "crv", "x", "y", "d", "use", "key_ops", "alg", "kid", "x5c", "x5u", "unknown"}, p \in Positions(e)} ELSE {})
   \cup {Slot("segment", s, "wire") : s \in Segments(e)}
   \cup (IF IsJson(e) THEN {Slot("json_shape", s, "wire") : s \in {"unprotected_type", "entry_list", "entry_missing_member", "protected_absent"}}
         ELSE {Slot("compact_shape", s, "wire") : s \in {"dots", "empty", "not_utf8", "huge"}})
@@ -83,7 +83,8 @@ Native(s, c) ==
     [] s.kind = "member" /\ s.name = "p2c" /\ c \in {"int_neg", "int_big", "int_zero"} -> "OverflowError"
     [] s.kind = "member" /\ c = "deep" -> "RecursionError"
     [] s.kind = "epk" /\ s.name = "crv" /\ c \in {"str_unknown", "str_otherkty"} -> "KeyError"
-    [] s.kind = "epk" /\ c \in {"int", "list", "null", "obj"} -> "TypeError"
+    [] s.kind = "epk" /\ c \in {"int", "list", "null", "obj", "list_nested", "list_obj", "bool", "float"} -> "TypeError"
+    [] s.kind = "epk" /\ c = "deep" -> "RecursionError"
     [] s.kind = "inner" /\ s.name = "deflate" /\ c \in {"corrupt", "truncated"} -> "zlib.error"
     [] s.kind = "json_shape" /\ c \in {"list", "str", "int", "null", "list_of_nondict"} -> "TypeError"
     [] s.kind = "segment" -> "binascii.Error"          \* a ValueError already
